@@ -637,24 +637,29 @@ _dispatch_transform_from_base32_with_table(dispatch_data_t data,
 				*ptr++ = (x >> 16) & 0xff;
 				*ptr++ = (x >> 8) & 0xff;
 				*ptr++ = x & 0xff;
+				// Padding shortens the group it terminates. Account for it
+				// where that group is emitted: the padding characters may sit
+				// in an earlier region than the end of the group, and later
+				// regions must not be shortened again.
+				switch (pad) {
+				case 1:
+					ptr -= 1;
+					break;
+				case 3:
+					ptr -= 2;
+					break;
+				case 4:
+					ptr -= 3;
+					break;
+				case 6:
+					ptr -= 4;
+					break;
+				}
+				pad = 0;
 			}
 		}
 
 		size_t final = (size_t)(ptr - dest);
-		switch (pad) {
-		case 1:
-			final -= 1;
-			break;
-		case 3:
-			final -= 2;
-			break;
-		case 4:
-			final -= 3;
-			break;
-		case 6:
-			final -= 4;
-			break;
-		}
 
 		dispatch_data_t val = dispatch_data_create(dest, final, NULL,
 				DISPATCH_DATA_DESTRUCTOR_FREE);
@@ -883,14 +888,20 @@ _dispatch_transform_from_base64(dispatch_data_t data)
 				*ptr++ = (x >> 16) & 0xff;
 				*ptr++ = (x >> 8) & 0xff;
 				*ptr++ = x & 0xff;
+				// Padding shortens the group it terminates (see base32)
+				if (pad > 0) {
+					if (pad > 2) {
+						free(dest);
+						return (bool)false;
+					}
+					// 2 bytes of pad means only had one char in final group
+					ptr -= pad;
+					pad = 0;
+				}
 			}
 		}
 
 		size_t final = (size_t)(ptr - dest);
-		if (pad > 0) {
-			// 2 bytes of pad means only had one char in final group
-			final -= pad;
-		}
 
 		dispatch_data_t val = dispatch_data_create(dest, final, NULL,
 				DISPATCH_DATA_DESTRUCTOR_FREE);
